@@ -309,8 +309,8 @@ Definition ast_step_pc (md : ast_mode) (n : nat) (s : ast_state) (tid : nat) (th
       match ath_prog th with
       | [] => (s, AstEvDone, false)
       | op :: rest =>
-          let pop pc hs := ast_with_thr s (ast_set (ast_thr s) tid
-                             {| ath_pc := pc; ath_prog := rest; ath_handles := hs |}) in
+          let pop pc hs := ast_with_thr s (ast_upd (ast_thr s) tid (fun _ =>
+                             {| ath_pc := pc; ath_prog := rest; ath_handles := hs |})) in
           match op with
           | AstSend o => (pop (AstSendLen o) (ath_handles th), AstEvYield ast_site_send_len, false)
           | AstGet k =>
@@ -327,8 +327,8 @@ Definition ast_step_pc (md : ast_mode) (n : nat) (s : ast_state) (tid : nat) (th
   | AstSendLen o =>
       if aso_discard o && (length (ast_tchan s) =? n) then
         let s1 := if aso_onerr o then ast_with_discards s (S (ast_discards s)) else s in
-        (ast_with_thr s1 (ast_set (ast_thr s1) tid
-           {| ath_pc := AstIdle; ath_prog := ath_prog th; ath_handles := ath_handles th ++ [AstHDiscard] |}),
+        (ast_with_thr s1 (ast_upd (ast_thr s1) tid (fun _ =>
+           {| ath_pc := AstIdle; ath_prog := ath_prog th; ath_handles := ath_handles th ++ [AstHDiscard] |})),
          AstEvRet AstRDiscard, false)
       else
         let t := length (ast_tasks s) in
@@ -340,8 +340,8 @@ Definition ast_step_pc (md : ast_mode) (n : nat) (s : ast_state) (tid : nat) (th
       | Some b =>
           let s1 := if b then ast_upd_task s t (ast_t_owner AwGone)
                     else ast_upd_task (ast_with_tchan s (ast_tchan s ++ [t])) t (ast_t_owner AwChan) in
-          (ast_with_thr s1 (ast_set (ast_thr s1) tid
-             {| ath_pc := AstIdle; ath_prog := ath_prog th; ath_handles := ath_handles th ++ [AstHTask t] |}),
+          (ast_with_thr s1 (ast_upd (ast_thr s1) tid (fun _ =>
+             {| ath_pc := AstIdle; ath_prog := ath_prog th; ath_handles := ath_handles th ++ [AstHTask t] |})),
            AstEvRet (AstRTask t), b)
       end
   | AstGetWait t =>
